@@ -79,7 +79,8 @@ class MetaString(type):
             # log.debug(f"to_buffer {offset+8} {len(data)} {string_capacity}")
             buffer.update_from_buffer(offset + 8, data)
         elif is_integer(value):
-            pass
+            # an empty string: whatever was in the buffer must not be read back
+            buffer.update_from_buffer(offset + 8, b"\x00" * string_capacity)
         else:
             raise ValueError(f"{value} not a string")
 
